@@ -263,6 +263,21 @@ func (fr *Frame) libModel(key string, fn *ssa.Function, c *ssa.CallCommon, args 
 			fr.wrapFacts(r, c, args, st)
 		}
 		return r, true
+	case "errors.Join":
+		// nil only if every joined error is nil
+		r := vc.fresh("joined", SInt)
+		vc.assert(Le(I(0), r))
+		if sv, ok := args[0].(*SliceV); ok {
+			ek := elemKey(sv.Elem)
+			a := vc.getGlob(st, ek, SArrIAI)
+			vc.eng.noteGlobSort(ek, SArrIAI)
+			contents := Sel(a, sv.Arr)
+			// variadic call sites pass short literal lists: instantiate the first few positions
+			for k := int64(0); k < 4; k++ {
+				vc.assert(Imp(And(Eq(r, I(0)), Lt(I(k), sv.Len)), Eq(Sel(contents, Add(sv.Off, I(k))), I(0))))
+			}
+		}
+		return r, true
 	case "errors.Is":
 		a, _ := lf(0)
 		b, _ := lf(1)
